@@ -9,6 +9,7 @@
 package c13
 
 import (
+	"encoding/json"
 	"fmt"
 	"math/rand"
 	"os"
@@ -22,13 +23,17 @@ import (
 )
 
 func init() {
-	reg.Register(&reg.Prop{ID: "C13", Level: "exploration", Main: Main, Child: Child})
+	reg.Register(&reg.Prop{ID: "C13", Level: "exploration", Main: Main, Child: Child, Replay: Replay})
 }
+
+// floorReq: what a whole run must have observed (0 in a replay of one case)
+var floorReq = 100
 
 var zones = []string{"UTC", "America/New_York", "Asia/Tokyo"}
 
 // caseSpec identifies one case; everything else is derived from (seed, Idx).
 type caseSpec struct {
+	Seed  int64   `json:"seed"`
 	Idx   int     `json:"idx"`
 	Pos   string  `json:"pos"`
 	Win   window  `json:"window"`
@@ -46,8 +51,14 @@ func genCases(c *run.Ctx) []caseSpec {
 	r := c.Rng("cases")
 	var out []caseSpec
 	add := func(pos *position, class, zone string, cluster bool) {
-		cs := caseSpec{Idx: len(out), Pos: pos.Name, Win: genWindow(r, class), Zone: zone, WZone: zones[r.Intn(3)]}
+		cs := caseSpec{Seed: c.Seed(), Idx: len(out), Pos: pos.Name, Win: genWindow(r, class), Zone: zone, WZone: zones[r.Intn(3)]}
 		cs.Var = variant{Cluster: cluster, Metrics15: r.Intn(4) != 0, TempoV2: r.Intn(3) != 0}
+		out = append(out, cs)
+	}
+	// Loki tail: one session per reader zone (two in the thorough tier), layouts alternating
+	for k := 0; k < c.Pick(3, 6); k++ {
+		cs := caseSpec{Seed: c.Seed(), Idx: len(out), Pos: tailPos.Name, Win: window{Class: "wall-clock"}, Zone: zones[k%3], WZone: "UTC"}
+		cs.Var = variant{Cluster: k%2 == 1, Metrics15: true, TempoV2: true}
 		out = append(out, cs)
 	}
 	if c.Quick() {
@@ -96,9 +107,33 @@ func genCases(c *run.Ctx) []caseSpec {
 }
 
 type childCfg struct {
-	Zone  string `json:"zone"`
-	Part  int    `json:"part"`
-	Parts int    `json:"parts"`
+	Zone   string    `json:"zone"`
+	Part   int       `json:"part"`
+	Parts  int       `json:"parts"`
+	Replay *caseSpec `json:"replay,omitempty"`
+}
+
+// Replay re-runs the case stored in a replay file (in a child with the reader zone of the case).
+func Replay(c *run.Ctx, path string) {
+	b, err := os.ReadFile(path)
+	if err != nil {
+		c.Undecided("cannot read replay file: " + err.Error())
+		return
+	}
+	var doc struct {
+		Case struct {
+			Case *caseSpec `json:"case"`
+		} `json:"case"`
+	}
+	if err := json.Unmarshal(b, &doc); err != nil || doc.Case.Case == nil {
+		c.Undecided("replay file holds no case")
+		return
+	}
+	cs := doc.Case.Case
+	c.Note(fmt.Sprintf("replaying case %d: %s, window class %s, reader TZ=%s, writer TZ=%s", cs.Idx, cs.Pos, cs.Win.Class, cs.Zone, cs.WZone))
+	runChild(c, childCfg{Zone: cs.Zone, Parts: 1, Replay: cs})
+	c.Case("replay/a")
+	c.Case("replay/b")
 }
 
 func Main(c *run.Ctx) {
@@ -112,7 +147,7 @@ func Main(c *run.Ctx) {
 	c.Assume("metric queries (LogQL range aggregations, PromQL): rows inside the range bucket enclosing from/to, or inside the 15 s storage bucket enclosing from/to, are neither sentinels nor probes (computed from the query, not from the SQL)")
 	c.Assume("dependent look-ups (scans without a time bound of their own that are restricted to keys produced by a confined scan: trace info by trace_id, labels by fingerprint) are confined by construction; sentinels own keys, so such a scan admits one only if the key scan leaked")
 	c.Assume("a data-table bound narrower than the requested window (rows inside the window dropped, no index involved) is reported as probe-missing/cause=data-bound: the statement asks that the rows be restricted to the requested window, which a narrower bound does not implement either")
-	c.Note("not covered: Loki tail (websocket; its window is [now-5min, now] of the wall clock and cannot be set by the request)")
+	c.Assume("Loki tail: the window is [connect time - 5 min, now] of the wall clock; the data is generated relative to the clock just before connecting, sentinels lie 1 ns … 31 days before (generation time - 5 min) and 1 ns … 31 days after (generation time + 10 min), so a delay only moves them further outside; a session longer than 10 min is inconclusive; probes are not required (wall clock)")
 
 	cases := genCases(c)
 	perZone := map[string]int{}
@@ -127,6 +162,7 @@ func Main(c *run.Ctx) {
 	for _, p := range positions {
 		c.Floor("endpoint evaluated: "+p.Name, 1, 0)
 	}
+	c.Floor("endpoint evaluated: "+tailPos.Name, 1, 0)
 	for fam := range familyPositions() {
 		for _, f := range []string{"midnight-crossing", "month-crossing", "sub-second", "ending in the first 30 min of a UTC day"} {
 			c.Floor("family "+fam+": window "+f, 1, 0)
@@ -151,6 +187,13 @@ func Main(c *run.Ctx) {
 	}
 	wg.Wait()
 	c.Extra("cases_planned", len(cases))
+	names := []string{tailPos.Name}
+	for _, p := range positions {
+		names = append(names, p.Name)
+	}
+	sort.Strings(names)
+	c.Extra("endpoint_positions", names)
+	c.Extra("proposed_fixes", "harness/props/c13/proposed-fixes.diff.txt (with it applied only the prom.query_range 15 s end-bucket finding remains)")
 }
 
 func runChild(c *run.Ctx, cfg childCfg) {
@@ -190,21 +233,39 @@ func Child(c *run.Ctx, name string) {
 		c.Undecided("child: zone data missing: " + err.Error())
 		return
 	}
-	cases := genCases(c)
 	rg := newRig()
+	if cfg.Replay != nil {
+		floorReq = 0
+		c.BeginCase(cfg.Replay.Idx, cfg.Replay)
+		if cfg.Replay.Pos == tailPos.Name {
+			runTail(c, rg, cfg.Replay)
+		} else {
+			runCase(c, rg, cfg.Replay)
+		}
+		c.EndCase(cfg.Replay.Idx)
+		return
+	}
+	cases := genCases(c)
 	n := 0
-	for i := range cases {
-		cs := &cases[i]
-		if cs.Zone != cfg.Zone {
-			continue
+	// the tail sessions come last: their reader goroutines may issue one more statement after the close
+	for _, tailRound := range []bool{false, true} {
+		for i := range cases {
+			cs := &cases[i]
+			if cs.Zone != cfg.Zone || (cs.Pos == tailPos.Name) != tailRound {
+				continue
+			}
+			n++
+			if n%cfg.Parts != cfg.Part {
+				continue
+			}
+			c.BeginCase(cs.Idx, cs)
+			if tailRound {
+				runTail(c, rg, cs)
+			} else {
+				runCase(c, rg, cs)
+			}
+			c.EndCase(cs.Idx)
 		}
-		n++
-		if n%cfg.Parts != cfg.Part {
-			continue
-		}
-		c.BeginCase(cs.Idx, cs)
-		runCase(c, rg, cs)
-		c.EndCase(cs.Idx)
 	}
 }
 
@@ -222,7 +283,11 @@ type witness struct {
 
 func runCase(c *run.Ctx, rg *rig, cs *caseSpec) {
 	pos := positionByName(cs.Pos)
-	r := rand.New(rand.NewSource(run.SubSeed(c.Seed(), fmt.Sprintf("case/%d", cs.Idx))))
+	if pos == nil {
+		c.Undecided("unknown position " + cs.Pos)
+		return
+	}
+	r := rand.New(rand.NewSource(run.SubSeed(cs.Seed, fmt.Sprintf("case/%d", cs.Idx))))
 	tag := fmt.Sprintf("t%d", cs.Idx)
 	p := newPlan(pos, cs.Win, tag, r)
 	lp := pos.Family == "loki" || pos.Family == "prom"
@@ -230,6 +295,12 @@ func runCase(c *run.Ctx, rg *rig, cs *caseSpec) {
 		p.noShared = true
 	}
 	items := p.genItems(lp)
+	runPrepared(c, rg, pos, cs, p, items, nil)
+}
+
+// runPrepared builds the databases and runs the request (exec == nil: the plan's request).
+func runPrepared(c *run.Ctx, rg *rig, pos *position, cs *caseSpec, p *plan, items []*item, exec func(tb *tables) *outcome) {
+	tag := p.Tag
 	wz, err := time.LoadLocation(cs.WZone)
 	if err != nil {
 		c.Undecided("writer zone data missing")
@@ -264,8 +335,21 @@ func runCase(c *run.Ctx, rg *rig, cs *caseSpec) {
 		c.Cover("writer zone (trace tag rows)", cs.WZone, 1)
 	}
 	rg.use(cs.Var)
-	of := rg.exec(p, full)
+	var of *outcome
+	if exec != nil {
+		of = exec(full)
+	} else {
+		of = rg.exec(p, full)
+	}
 	c.Event("requests", 1)
+	judge(c, rg, pos, cs, p, items, full, ref, of, build, exec != nil)
+}
+
+// judge applies the oracles to the outcome of the request on the full database. tail: the outcome is
+// a websocket session (no reference request, probes not required: its window follows the wall clock).
+func judge(c *run.Ctx, rg *rig, pos *position, cs *caseSpec, p *plan, items []*item, full, ref *tables, of *outcome,
+	build func(v sel) (*tables, error), tail bool) {
+	lp := pos.Family == "loki" || pos.Family == "prom"
 	wit := func(detail string, o *outcome, refBody []byte) *witness {
 		w := &witness{Case: cs, Plan: p, Items: items, Detail: detail}
 		if o != nil {
@@ -300,6 +384,18 @@ func runCase(c *run.Ctx, rg *rig, cs *caseSpec) {
 	c.Sample(map[string]any{"case": cs, "request": p.Req.String(), "select": p.Direct, "allowed": []string{tsStr(p.ALo), tsStr(p.AHi)},
 		"items": len(items), "statements": len(of.Stmts), "scans": len(of.Scans)})
 
+	if os.Getenv("C13_DEBUG") != "" {
+		fmt.Fprintf(os.Stderr, "REQUEST %s %s\nSTATUS %d\nBODY %s\n", p.Req.String(), p.Desc, of.Status, of.Body)
+		for _, it := range items {
+			fmt.Fprintf(os.Stderr, "ITEM %s %s %s %s shared=%v %s v=%d\n", it.Role, it.Side, it.Dist, tsStr(it.Ts), it.Shared, it.Marker, it.VMark)
+		}
+		for i, st := range of.Stmts {
+			fmt.Fprintf(os.Stderr, "SQL %d rows=%d err=%s %s\n", i, st.Rows, st.Err, st.SQL)
+		}
+		for _, sc := range of.Scans {
+			fmt.Fprintf(os.Stderr, "SCAN stmt=%d %s offered=%d admitted=%v where=%s\n", sc.Stmt, sc.Table, sc.Offered, sc.Admitted, sc.Where)
+		}
+	}
 	zc := zoneClass(cs.Zone)
 	if pos.Family == "tempo" {
 		zc = "reader-" + zoneClass(cs.Zone) + "-writer-" + zoneClass(cs.WZone)
@@ -323,6 +419,14 @@ func runCase(c *run.Ctx, rg *rig, cs *caseSpec) {
 	probeRejIdx := map[*item][]rej{} // probe → index scans whose date bounds exclude its row
 	probeRejData := map[*item][]rej{}
 	var idxRej []rej // first rejection per (table, side)
+	type scanLeak struct {
+		table  string
+		worst  *item
+		leaked string
+		wi     whereInfo
+		where  string
+	}
+	var scanLeaks []scanLeak
 	idxRejSeen := map[string]bool{}
 	for _, sc := range of.Scans {
 		tn := localName(sc.Table)
@@ -346,17 +450,19 @@ func runCase(c *run.Ctx, rg *rig, cs *caseSpec) {
 		hasTs := wi.HasTsLo || wi.HasTsHi
 		hasDate := wi.HasDateLo || wi.HasDateHi
 		asData := dataTables[tn]
-		if tn == "tempo_traces_attrs_gin" && !hasTs && hasDate {
+		if tn == "tempo_traces_attrs_gin" && !hasTs && hasDate && pos.Name == "tempo.search.tags" && !cs.Var.TempoV2 {
 			// schema before tempo_v2: the attribute table has no usable timestamp, it is read as a
 			// date-bounded index and the spans are confined by the scan of tempo_traces
 			asData = false
 		}
 		if asData {
-			dependent := !hasTs && wi.KeyIn
+			// the only data table qryn reads by keys of an already confined scan is tempo_traces
+			// (trace info / span payloads by trace_id, span_id)
+			dependent := tn == "tempo_traces" && !hasTs && wi.KeyIn
 			if dependent {
 				c.Event("dependent look-ups (not judged)", 1)
 			} else {
-				c.Floor("data-table scans judged", 100, 1)
+				c.Floor("data-table scans judged", floorReq, 1)
 				c.Cover("data-table scans judged", tn, 1)
 				var worst *item
 				var leaked []string
@@ -370,10 +476,7 @@ func runCase(c *run.Ctx, rg *rig, cs *caseSpec) {
 					}
 				}
 				if worst != nil {
-					c.Violation(fmt.Sprintf("%s/data-scan-outside-window/%s/%s-%s", pos.Name, tn, worst.Side, worst.Dist),
-						fmt.Sprintf("%s: the scan of %s admitted rows outside the allowed window [%s, %s] (requested [%s, %s]): %s. Bounds of the scan: %s. Request: %s %s",
-							pos.Name, tn, tsStr(p.ALo), tsStr(p.AHi), tsStr(p.From), tsStr(p.To), clip(strings.Join(leaked, ", "), 400), boundsText(wi), p.Req.String(), p.Desc),
-						wit("scan admitted "+strings.Join(leaked, ", ")+" where="+sc.Where, of, nil))
+					scanLeaks = append(scanLeaks, scanLeak{tn, worst, clip(strings.Join(leaked, ", "), 400), wi, sc.Where})
 				}
 				if lp {
 					for _, i := range sc.Admitted {
@@ -404,7 +507,7 @@ func runCase(c *run.Ctx, rg *rig, cs *caseSpec) {
 				und("index scan with a date condition the monitor cannot read: " + clip(sc.Where, 120))
 				return
 			}
-			c.Floor("index-table scans judged", 100, 1)
+			c.Floor("index-table scans judged", floorReq, 1)
 			c.Cover("index-table scans judged", tn, 1)
 			if hasDate {
 				for _, m := range meta {
@@ -454,6 +557,8 @@ func runCase(c *run.Ctx, rg *rig, cs *caseSpec) {
 		} else {
 			c.Event("error answers explained by a rejected index row", 1)
 		}
+	} else if tail {
+		or = &outcome{Status: 200}
 	} else {
 		or = rg.exec(p, ref)
 		c.Event("requests", 1)
@@ -463,6 +568,7 @@ func runCase(c *run.Ctx, rg *rig, cs *caseSpec) {
 		}
 	}
 	missingByIdx := map[string][]string{} // table/side → probes missing from the response because of it
+	e2eHits := ""
 	if e2e {
 		// (1) sentinels / other signal by marker
 		var hit *item
@@ -485,11 +591,15 @@ func runCase(c *run.Ctx, rg *rig, cs *caseSpec) {
 			}
 		}
 		if hit != nil {
-			c.Violation(fmt.Sprintf("%s/sentinel-in-response/%s", pos.Name, sideDist(hit)),
-				fmt.Sprintf("%s (reader TZ=%s): the response contains %s; allowed window [%s, %s], requested [%s, %s]. Request: %s %s",
-					pos.Name, cs.Zone, clip(strings.Join(hits, ", "), 500), tsStr(p.ALo), tsStr(p.AHi), tsStr(p.From), tsStr(p.To), p.Req.String(), p.Desc),
-				wit("markers in response: "+strings.Join(hits, ", "), of, or.Body))
-		} else if !pos.Index && canon(of.Body) != canon(or.Body) {
+			e2eHits = clip(strings.Join(hits, ", "), 500)
+			// a leak the scan monitor localised is reported once, there, with this confirmation
+			if !(hit.Role == roleSentinel && len(scanLeaks) > 0) {
+				c.Violation(fmt.Sprintf("%s/sentinel-in-response/%s", pos.Name, sideDist(hit)),
+					fmt.Sprintf("%s (reader TZ=%s): the response contains %s; allowed window [%s, %s], requested [%s, %s]. Request: %s %s",
+						pos.Name, cs.Zone, e2eHits, tsStr(p.ALo), tsStr(p.AHi), tsStr(p.From), tsStr(p.To), p.Req.String(), p.Desc),
+					wit("markers in response: "+strings.Join(hits, ", "), of, or.Body))
+			}
+		} else if !pos.Index && !tail && canon(of.Body) != canon(or.Body) {
 			// (2) differential: find the single sentinel whose data changes the answer
 			var culprit *item
 			for _, it := range items {
@@ -508,7 +618,9 @@ func runCase(c *run.Ctx, rg *rig, cs *caseSpec) {
 					}
 				}
 			}
-			if culprit != nil {
+			if culprit != nil && culprit.Role == roleSentinel && len(scanLeaks) > 0 {
+				e2eHits = "the response changes when the data of " + describe(culprit) + " is added to the database"
+			} else if culprit != nil {
 				c.Violation(fmt.Sprintf("%s/sentinel-in-response/%s", pos.Name, sideDist(culprit)),
 					fmt.Sprintf("%s (reader TZ=%s): the response changes when the data of %s is added to the database (it contributes to an aggregate); allowed window [%s, %s], requested [%s, %s]. Request: %s %s",
 						pos.Name, cs.Zone, describe(culprit), tsStr(p.ALo), tsStr(p.AHi), tsStr(p.From), tsStr(p.To), p.Req.String(), p.Desc),
@@ -538,7 +650,7 @@ func runCase(c *run.Ctx, rg *rig, cs *caseSpec) {
 				}
 				missing = append(missing, it)
 			}
-			c.Floor("probes found in responses", 100, found)
+			c.Floor("probes found in responses", floorReq, found)
 			c.Event("probes found in responses", found)
 			if found > 0 {
 				c.Cover("endpoints with probes found", pos.Name, 1)
@@ -551,6 +663,10 @@ func runCase(c *run.Ctx, rg *rig, cs *caseSpec) {
 					continue
 				}
 				rs := probeRejData[it]
+				if tail {
+					c.Event("tail: probes not seen (window follows the wall clock; not judged)", 1)
+					continue
+				}
 				if len(rs) == 0 {
 					und("probe missing from the response, cause not localised: " + it.Dist)
 					c.Note(fmt.Sprintf("%s: probe %s at %s missing, cause not localised; request %s %s", pos.Name, it.Dist, tsStr(it.Ts), p.Req.String(), p.Desc))
@@ -568,6 +684,24 @@ func runCase(c *run.Ctx, rg *rig, cs *caseSpec) {
 			}
 		}
 	}
+	// data scans that admitted rows outside the allowed window (with the end-to-end confirmation where there is one)
+	for _, l := range scanLeaks {
+		conf := ""
+		if e2eHits != "" {
+			conf = " End to end: the response contains " + e2eHits + "."
+			if strings.HasPrefix(e2eHits, "the response changes") {
+				conf = " End to end: " + e2eHits + "."
+			}
+		}
+		var refBody []byte
+		if or != nil {
+			refBody = or.Body
+		}
+		c.Violation(fmt.Sprintf("%s/data-scan-outside-window/%s/%s-%s", pos.Name, l.table, l.worst.Side, l.worst.Dist),
+			fmt.Sprintf("%s (reader TZ=%s): the scan of %s admitted rows outside the allowed window [%s, %s] (requested [%s, %s]): %s. Bounds of the scan: %s.%s Request: %s %s",
+				pos.Name, cs.Zone, l.table, tsStr(p.ALo), tsStr(p.AHi), tsStr(p.From), tsStr(p.To), l.leaked, boundsText(l.wi), conf, p.Req.String(), p.Desc),
+			wit("scan admitted "+l.leaked+" where="+l.where, of, refBody))
+	}
 	// index date bounds that do not cover the window (with the end-to-end confirmation where there is one)
 	for _, rj := range idxRej {
 		conf := ""
@@ -580,7 +714,11 @@ func runCase(c *run.Ctx, rg *rig, cs *caseSpec) {
 		if or != nil {
 			refBody = or.Body
 		}
-		c.Violation(fmt.Sprintf("%s/index-probe-rejected/%s/%s-date-bound/%s", pos.Name, rj.table, rj.side, zc),
+		ep := pos.Name
+		if strings.HasPrefix(ep, "prom.select.") {
+			ep = "prom.select" // the labels fetch of Select does not depend on the hint function
+		}
+		c.Violation(fmt.Sprintf("%s/index-probe-rejected/%s/%s-date-bound/%s", ep, rj.table, rj.side, zc),
 			fmt.Sprintf("%s (reader TZ=%s%s): the scan of %s is bounded by dates %s, which do not cover the window [%s, %s]: the index row dated %s of the record at %s (inside the window) is rejected.%s Request: %s %s",
 				pos.Name, cs.Zone, writerNote(pos, cs), rj.table, dateBoundsText(rj.wi), tsStr(p.From), tsStr(p.To), dateStr(rj.row.Date), tsStr(rj.row.It.Ts), conf, p.Req.String(), p.Desc),
 			wit(fmt.Sprintf("index row date %s outside %s; where=%s; sql=%s", dateStr(rj.row.Date), dateBoundsText(rj.wi), rj.where, clip(rj.sql, 400)), of, refBody))
@@ -674,5 +812,3 @@ func dateBoundsText(wi whereInfo) string {
 	}
 	return "[" + lo + ", " + hi + "]"
 }
-
-var _ = sort.Strings
